@@ -10,6 +10,7 @@ import (
 	"encoding/json"
 	"flag"
 	"fmt"
+	"math/big"
 	"math/rand"
 	"os"
 	"path/filepath"
@@ -19,6 +20,7 @@ import (
 	"github.com/vechain/thor/v2/block"
 	"github.com/vechain/thor/v2/builtin"
 	"github.com/vechain/thor/v2/thor"
+	"github.com/vechain/thor/v2/tx"
 
 	"verifharness/internal/sim"
 	"verifharness/internal/trace"
@@ -41,14 +43,45 @@ type runStat struct {
 }
 
 type rec struct {
-	net    *sim.Net
-	ids    *trace.Interner
-	evs    []trace.Ev
-	blocks map[thor.Bytes32]*block.Block
-	order  []*block.Block
-	rng    *rand.Rand
-	st     runStat
-	byHt   map[uint32]int
+	net        *sim.Net
+	ids        *trace.Interner
+	evs        []trace.Ev
+	blocks     map[thor.Bytes32]*block.Block
+	order      []*block.Block
+	rng        *rand.Rand
+	st         runStat
+	byHt       map[uint32]int
+	logWeights bool
+}
+
+// weightTable reads every validator's voting weight from the state of the given block on the omniscient stack
+// (scaled to units of 1e6 VET-weight so that sums stay below 2^31).
+func (r *rec) weightTable(id thor.Bytes32) map[string]any {
+	sum, err := r.net.God.Repo.GetBlockSummary(id)
+	if err != nil {
+		return nil
+	}
+	st := r.net.God.Stater.NewState(sum.Root())
+	leaders, err := builtin.Staker.Native(st).LeaderGroup()
+	if err != nil {
+		return nil
+	}
+	wt := map[string]any{"none": 0}
+	for i := 0; i < r.net.Opt.Validators; i++ {
+		wt[fmt.Sprintf("v%d", i)] = 0
+	}
+	for _, l := range leaders {
+		for i := 0; i < r.net.Opt.Validators; i++ {
+			if r.net.Devs[i].Address == l.Address {
+				if l.Weight%1_000_000 != 0 {
+					fmt.Println("HARNESS-ERROR weight not a multiple of 1e6:", l.Weight)
+					os.Exit(3)
+				}
+				wt[fmt.Sprintf("v%d", i)] = l.Weight / 1_000_000
+			}
+		}
+	}
+	return wt
 }
 
 func must(err error) {
@@ -75,8 +108,16 @@ func (r *rec) noteBlock(blk *block.Block) {
 	if h.COM() {
 		r.st.ComVotes++
 	}
-	r.evs = append(r.evs, trace.Ev{"e": "New", "b": r.name(h.ID()), "p": r.name(h.ParentID()), "num": h.Number(),
-		"signer": r.val(h), "com": h.COM(), "score": h.TotalScore()})
+	ev := trace.Ev{"e": "New", "b": r.name(h.ID()), "p": r.name(h.ParentID()), "num": h.Number(),
+		"signer": r.val(h), "com": h.COM(), "score": h.TotalScore()}
+	if r.logWeights && h.Number()%r.net.Opt.EpochLength == 0 {
+		// PoS: the weight table of the epoch is that of the checkpoint's post-housekeep state (logged as a fact;
+		// the threshold total*2/3 is computed by the specification)
+		if wt := r.weightTable(h.ID()); wt != nil {
+			ev["wt"] = wt
+		}
+	}
+	r.evs = append(r.evs, ev)
 }
 
 func (r *rec) commitEv(n *sim.Node, blk *block.Block, own bool) {
@@ -204,10 +245,15 @@ func (c config) String() string {
 }
 
 func newRec(c config, scen string, seed int64) *rec {
-	net := sim.NewNet(sim.Options{Validators: c.validators, Nodes: c.nodes, PoS: c.pos, EpochLength: c.epoch, SkipLogs: true})
+	opt := sim.Options{Validators: c.validators, Nodes: c.nodes, PoS: c.pos, EpochLength: c.epoch, SkipLogs: true}
+	if scen == "posweights" {
+		opt.StakingPeriod = 2 * c.epoch
+	}
+	net := sim.NewNet(opt)
 	r := &rec{net: net, ids: trace.NewInterner("b"), blocks: map[thor.Bytes32]*block.Block{}, rng: rand.New(rand.NewSource(seed)),
 		byHt: map[uint32]int{}}
 	r.st.Scen, r.st.Seed, r.st.Cfg = scen, seed, c.String()
+	r.logWeights = c.pos
 	g := net.B0.Header().ID()
 	r.name(g)
 	r.blocks[g] = net.B0
@@ -529,7 +575,67 @@ func scenLateSibling(r *rec, _ int) {
 	}
 }
 
-var scenarios = []string{"sync", "async", "async-restart", "byz", "equivocate", "permute", "latesibling", "boundary"}
+// scenPosWeights: proof of stake with UNEQUAL weights: in the first blocks the validators increase their stake by
+// different amounts; after the next staking-period renewal the weights differ, so that justification depends on who
+// signs (two heavy validators can carry an epoch, three light ones cannot).
+func scenPosWeights(r *rec, blocks int) {
+	n := len(r.net.Nodes)
+	tag := r.net.God.Repo.ChainTag()
+	m, ok := builtin.Staker.ABI.MethodByName("increaseStake")
+	if !ok {
+		panic("no increaseStake")
+	}
+	unit, _ := new(big.Int).SetString("1000000000000000000000000", 10) // 1e6 VET in wei
+	incs := []int64{0, 25, 50, 100}
+	r.rng.Shuffle(len(incs), func(i, j int) { incs[i], incs[j] = incs[j], incs[i] })
+	mkTxs := func(ref uint32) tx.Transactions {
+		var txs tx.Transactions
+		for i := 0; i < r.net.Opt.Validators && i < len(incs); i++ {
+			if incs[i] == 0 {
+				continue
+			}
+			data, err := m.EncodeInput(r.net.Devs[i].Address)
+			must(err)
+			cl := tx.NewClause(&builtin.Staker.Address).WithData(data).WithValue(new(big.Int).Mul(unit, big.NewInt(incs[i])))
+			t := tx.NewBuilder(tx.TypeLegacy).ChainTag(tag).BlockRef(tx.NewBlockRef(ref)).Expiration(100).Gas(1_000_000).
+				Nonce(uint64(r.st.Seed) + uint64(i)).Clause(cl).Build()
+			txs = append(txs, tx.MustSign(t, r.net.Devs[i].PrivateKey))
+		}
+		return txs
+	}
+	// heavy validators first in the participation order after the change
+	order := []int{0, 1, 2, 3}
+	sort.Slice(order, func(a, b int) bool { return incs[order[a]] > incs[order[b]] })
+	for k := 0; k < blocks; k++ {
+		var p int
+		switch {
+		case k < blocks/3:
+			p = k % n // everybody
+		case k < 2*blocks/3:
+			p = order[k%2] // only the two heaviest (175..225 of 275: may or may not pass 2/3)
+		default:
+			p = order[1+k%3] // the three lightest
+		}
+		if p >= n {
+			p = k % n
+		}
+		if k == 0 {
+			r.net.Nodes[p].Pool.Txs = mkTxs(0)
+		}
+		blk := r.propose(p)
+		r.net.Nodes[p].Pool.Txs = nil
+		if blk == nil {
+			return
+		}
+		for i := range r.net.Nodes {
+			if i != p {
+				r.deliver(i, blk)
+			}
+		}
+	}
+}
+
+var scenarios = []string{"sync", "async", "async-restart", "byz", "equivocate", "permute", "latesibling", "boundary", "posweights"}
 
 func runOne(scen string, seed int64, blocks int) ([]trace.Ev, runStat) {
 	rng := rand.New(rand.NewSource(seed))
@@ -560,6 +666,8 @@ func runOne(scen string, seed int64, blocks int) ([]trace.Ev, runStat) {
 		} else {
 			c = config{6, 6, pos, epoch}
 		}
+	case "posweights":
+		c = config{4, 4, true, 3}
 	default:
 		panic("unknown scenario " + scen)
 	}
@@ -581,6 +689,8 @@ func runOne(scen string, seed int64, blocks int) ([]trace.Ev, runStat) {
 		scenLateSibling(r, blocks)
 	case "boundary":
 		scenBoundary(r, blocks)
+	case "posweights":
+		scenPosWeights(r, blocks)
 	}
 	evs := r.finish()
 	return evs, r.st
